@@ -195,8 +195,8 @@ def describe(case):
 def sig_of(case, clause, **extra):
     kw = case.get("kwargs", {})
     s = dict(clause=clause, search=case["search"])
-    if case["search"] == "CBO":
-        s.update(acq=kw.get("acq_func", "UCBd"), surrogate=kw.get("surrogate_model", "ET"))
+    if case["search"] == "CBO" and clause in CLAUSE.values():
+        s.update(acq=kw.get("acq_func", "UCBd"))
     s.update(extra)
     return s
 
@@ -367,9 +367,6 @@ def targeted_classes(rng):
     """Classes that reach a call site which is not fed by the seeded stream (per the extracted model on the generated sites), other than the
     known F09 site: a static proof obligation is broken - concentrate the dynamic search there."""
     a = analysis()
-    if not a.get("rng_sites"):
-        return [], []
-    known = {a["consts"][k] for k in KNOWN_KEYS}
     try:
         m = model()
         hits, out = [], []
@@ -379,6 +376,9 @@ def targeted_classes(rng):
                   base_case(rng, search="Random", space="cond", evals=10), base_case(rng, search="Random", space="flat_many", evals=10),
                   base_case(rng, search="RegEvo", space="flat_many", evals=16, kwargs=dict(population_size=5, sample_size=2)),
                   base_case(rng, search="RegEvo", space="cond", evals=16, kwargs=dict(population_size=5, sample_size=2))]
+        if not a["ok"]:
+            return probes[:5], ["translator failed closed: " + a["reason"]]   # unknown shape somewhere: every class is a target
+        known = {a["consts"][k] for k in KNOWN_KEYS}
         for c in probes:
             bad = [i for i in m.call(F_BAD, model_args(c)) if a["rng_sites"][i]["num"][1] not in known]
             env_bad = not m.call(F_ENV_OK, [a.get("world", [True]), cfg_of(c), [s["num"] for s in a["env_sites"]]]) and c["search"] != "RegEvo"
@@ -393,7 +393,7 @@ def targeted_classes(rng):
 def gen_pairs(rng, tier):
     tgt, _ = targeted_classes(rng)
     # three seeds per targeted class: a global draw need not change the proposals of every run
-    for c in tgt:
+    for c in tgt[:5]:
         for _ in range(3 if tier != "quick" else 2):
             c2 = dict(c)
             s = rng.randrange(1, 10**6)
@@ -509,6 +509,11 @@ def check_trace(case):
         return res
     finally:
         np.random.RandomState = RS0
+    if not a["ok"]:
+        # the translator failed closed (reported through the broken proof obligation): the site list is incomplete, only the state of the
+        # global generators is checked
+        res["desc"] = res["desc"] + ["translator_failed_closed", "global_generators_touched=%s" % any(out["globals_touched"])]
+        return res
     sched, outside, unlisted, mediated = [], set(), [], set()
     for rel, ln, meth, direct in events:
         if rel not in c07_sites.ANCHORS:
